@@ -112,6 +112,39 @@ def walk_history(rng, hid, length):
     return {"id": "w%d" % hid, "setup": setup, "calls": calls}
 
 
+def dirmove_history(rng, hid, length):
+    """Directories that move (path_rename of a directory, with what lies below it): into an empty directory's place, into their own
+    subtree (EINVAL), onto files and non-empty directories (ENOTDIR / ENOTEMPTY), files onto directories (EISDIR) - and directory
+    descriptors opened BEFORE a move, whose remembered path then names nothing or something else."""
+    # ("dd" and "d" share a prefix of characters, not of components: what happens to d must not touch dd)
+    setup = [{"call": "mkdirs", "path": x} for x in ("d", "d/s", "e", "dd")] + \
+            [{"call": "mkfile", "path": x, "bytes": [len(x)]} for x in ("a", "d/c", "d/s/f", "dd/c")] + [{"call": "mklink", "path": "l", "target": "a"}]
+    names = ["d", "e", "d/s", "e/d", "e/s", "d/s/x", "d/s/d", "n", "a", "l", "e/n", "d/c", "m", "m/s", "e/d/s", "e/d/c", "n/s/f", "d/e", "dd", "dd/c", "d", "d"]
+    calls, dirfds, nextfd = [], {3: ""}, 4
+    for _ in range(length):
+        abi = rng.choice("pu")
+        r = rng.random()
+        if r < 0.2 and len(dirfds) < 4:
+            nm = rng.choice(["d", "e", "d/s", "n", "m", "dd", "dd"])
+            calls.append({"call": "open", "abi": abi, "dirfd": 3, "path": nm, "abs": False, "oflags": 2, "rd": True, "wr": False, "app": False, "parent": os.path.dirname(nm)})
+            dirfds[nextfd] = nm          # (a guess: if the open fails the descriptor number stays unused and calls through it are EBADF)
+            nextfd += 1
+            continue
+        dirfd = rng.choice(list(dirfds))
+        rel = rng.choice(["s", "c", "s/f", "d", "x", "f"]) if dirfd != 3 else rng.choice(names)
+        k = rng.choice(["rename", "rename", "rename", "mkdir", "rmdir", "pathstat", "unlink", "open"])
+        c = {"call": k, "abi": abi, "dirfd": dirfd, "path": rel, "rawpath": rel, "parent": os.path.dirname(rel), "under": []}
+        if k == "rename":
+            fd2 = rng.choice(list(dirfds))
+            n2 = rng.choice(["s", "x", "d", "c"]) if fd2 != 3 else rng.choice(names)
+            c.update({"fd": fd2, "path2": n2, "parent2": os.path.dirname(n2), "rawpath2": n2})
+        elif k == "open":
+            c.update({"abs": False, "oflags": rng.choice([0, 1]), "rd": True, "wr": rng.random() < 0.5, "app": False})
+            nextfd += 1
+        calls.append(c)
+    return {"id": "m%d" % hid, "setup": setup, "calls": calls}
+
+
 def dot_history(rng, hid, length):
     """Paths with "." components.  Inside a path they change nothing ("./a", "d/./c": same object); as the LAST component
     ("." "./" "d/." "././") they name a directory through itself, which the host treats differently from the same directory
@@ -272,6 +305,8 @@ def main():
         hists += [dot_history(drng, j, 10) for j in range(60 if tier == "quick" else 1500)]
         wrng = random.Random(SEED + 1415)
         hists += [walk_history(wrng, j, 9) for j in range(80 if tier == "quick" else 2000)]
+        mrng = random.Random(SEED + 1416)
+        hists += [dirmove_history(mrng, j, 10) for j in range(120 if tier == "quick" else 3000)]
         st, exp = c12.run_all(v, hists, wd, tier, pid="C14", ls_after=("mkdir", "rmdir", "unlink", "symlink", "rename", "open"))
         states += st["states"]
         trans += st["transitions"]
@@ -367,7 +402,7 @@ def main():
            "host_faults": {k: fst[k] for k in ("faults_fired", "faults_not_reached", "distinct_faults")}, "readdir_calls": len(trace), "exhaustive": False}
     return v.finish("model_checking", cov,
                     ["directory order, inode numbers and cookie values are the host's (bound from the first listing, never predicted)",
-                     "renames of directories and operations through a file descriptor as directory are left unspecified by the model"])
+                     "operations through a file descriptor as directory and renames named through walked paths (.. and links on the way) are left unspecified by the model"])
 
 
 main_wrap(main)
